@@ -45,12 +45,29 @@ pub fn explore<F: Fn() -> Out<Sym>>(f: F, budget: usize) -> Result<Explored, Str
     let mut forced: Vec<bool> = vec![];
     let mut panics = 0; let mut maxd = 0;
     loop {
-        CTX.with(|c| { let mut c = c.borrow_mut(); c.path.clear(); c.forced = forced.clone(); c.touched.clear(); });
+        CTX.with(|c| { let mut c = c.borrow_mut(); c.path.clear(); c.forced = forced.clone(); c.touched.clear(); c.eager = false; });
         let r = catch_unwind(AssertUnwindSafe(|| f()));
         let path = CTX.with(|c| c.borrow().path.clone());
         maxd = maxd.max(path.len());
         let leaf = match r {
-            Ok(o) => Tree::Ret(Out { flags: o.flags, vals: o.vals.iter().map(|s| s.0).collect() }),
+            Ok(o) => {
+                let vals: Vec<u32> = o.vals.iter().map(|s| s.0).collect();
+                let mut leaf = Tree::Ret(Out { flags: o.flags, vals: vals.clone() });
+                // eager evaluation (integer entries): an arithmetic node computed on this path that neither the result nor a
+                // decision of the path depends on must still be defined; `n == n` panics in the integer semantics when n overflowed
+                let extra: Vec<u32> = CTX.with(|c| { let c = c.borrow(); if !c.eager { return vec![]; }
+                    let mut needed = std::collections::HashSet::new();
+                    let mut stack: Vec<u32> = vals.clone(); for (cd, _) in path.iter() { stack.push(cd.a); stack.push(cd.b); }
+                    while let Some(i) = stack.pop() { if !needed.insert(i) { continue; } match &c.nodes[i as usize] {
+                        Node::Un(_, a) => stack.push(*a), Node::Bin(_, a, b) => { stack.push(*a); stack.push(*b); }
+                        Node::Fma(a, b, d) => { stack.push(*a); stack.push(*b); stack.push(*d); } Node::Powi(a, _) => stack.push(*a),
+                        Node::Fun(_, args) => stack.extend(args.iter().cloned()), _ => {} } }
+                    let mut out = vec![];
+                    for &i in c.touched.iter() { if needed.contains(&i) || out.contains(&i) { continue; }
+                        match &c.nodes[i as usize] { Node::Bin(Op2::Add, ..) | Node::Bin(Op2::Sub, ..) | Node::Bin(Op2::Mul, ..) | Node::Bin(Op2::Div, ..) | Node::Bin(Op2::Rem, ..) | Node::Un(Op1::Neg, _) => out.push(i), _ => {} } }
+                    out });
+                for &i in extra.iter().rev() { leaf = Tree::If(Cond { kind: CondKind::Eq, a: i, b: i }, Box::new(leaf), Box::new(Tree::Cut)); }
+                leaf }
             Err(_) => {
                 let msg = LAST_PANIC.with(|p| p.borrow().clone());
                 if msg.starts_with("symx:") { return Err(msg); }
